@@ -84,6 +84,18 @@ def layouts():
     xdoc.add_param(d, "T8", uint(8))
     xdoc.add_container(d, "ROOT", hdr + [("p", "L"), ("p", "S"), ("p", "T8")])
     out.append(("dyn-str-signed-len", d))
+    # little-endian whole-byte integers at the end of the layout (their read path swaps bytes)
+    d, hdr = header_defn()
+    xdoc.add_param(d, "A", uint(8))
+    xdoc.add_param(d, "LE16", uint(16, order="lsb"))
+    xdoc.add_param(d, "LE32", uint(32, "twosComplement", "lsb"))
+    xdoc.add_container(d, "ROOT", hdr + [("p", "A"), ("p", "LE16"), ("p", "LE32")])
+    out.append(("little-endian-int-tail", d))
+    d, hdr = header_defn()
+    xdoc.add_param(d, "A", uint(4))
+    xdoc.add_param(d, "LE24", uint(24, order="lsb"))
+    xdoc.add_container(d, "ROOT", hdr + [("p", "A"), ("p", "LE24")])
+    out.append(("little-endian-unaligned-tail", d))
     # inheritance: a packet may end exactly where one container's entries end and its (selected) inheritor's begin
     for root_abstract in (False, True):
         d, hdr = header_defn()
